@@ -9,6 +9,10 @@
 #include "QXmppCarbonManager.h"
 #include "QXmppCarbonManagerV2.h"
 #include "QXmppDiscoveryManager.h"
+#include "QXmppE2eeExtension.h"
+#include "QXmppE2eeMetadata.h"
+#include "QXmppFutureUtils_p.h"
+#include "QXmppMessage.h"
 #include "QXmppEntityTimeManager.h"
 #include "QXmppExternalServiceDiscoveryManager.h"
 #include "QXmppIq.h"
@@ -33,6 +37,55 @@
 using namespace sim;
 
 namespace {
+
+// A minimal end-to-end encryption extension built on the library's public hooks, shaped like the OMEMO manager (which is not
+// built in this sandbox): an IQ whose payload is <enc xmlns='urn:sim:e2ee'>BASE64(inner iq)</enc> is "decrypted" and handed
+// back to the client through QXmppClientExtension::injectIq() together with e2ee metadata, so it travels the client's
+// second IQ entry point (fallback error reply included); replies to such IQs go through encryptIq().
+class SimE2ee : public QXmppClientExtension, public QXmppE2eeExtension
+{
+public:
+    int injectedCount = 0;
+    bool handleStanza(const QDomElement &el, const std::optional<QXmppE2eeMetadata> &md) override
+    {
+        if (md || el.tagName() != QLatin1String("iq")) {
+            return false;
+        }
+        const QDomElement enc = el.firstChildElement(QStringLiteral("enc"));
+        if (enc.isNull() || enc.namespaceURI() != QLatin1String("urn:sim:e2ee")) {
+            return false;
+        }
+        QDomDocument doc;
+        if (!doc.setContent(QByteArray::fromBase64(enc.text().toLatin1()), true)) {
+            return false;
+        }
+        QXmppE2eeMetadata m;
+        m.setEncryption(QXmpp::Omemo2);
+        m.setSenderKey(QByteArray("simkey"));
+        ++injectedCount;
+        injectIq(doc.documentElement(), m);
+        return true;
+    }
+    QXmppTask<MessageEncryptResult> encryptMessage(QXmppMessage &&m, const std::optional<QXmppSendStanzaParams> &) override
+    {
+        return QXmpp::Private::makeReadyTask<MessageEncryptResult>(std::make_unique<QXmppMessage>(std::move(m)));
+    }
+    QXmppTask<MessageDecryptResult> decryptMessage(QXmppMessage &&) override
+    {
+        return QXmpp::Private::makeReadyTask<MessageDecryptResult>(NotEncrypted {});
+    }
+    QXmppTask<IqEncryptResult> encryptIq(QXmppIq &&iq, const std::optional<QXmppSendStanzaParams> &) override
+    {
+        // the "ciphertext" keeps id, type and addressee readable, which is all the far end's count needs
+        return QXmpp::Private::makeReadyTask<IqEncryptResult>(std::make_unique<QXmppIq>(iq));
+    }
+    QXmppTask<IqDecryptResult> decryptIq(const QDomElement &) override
+    {
+        return QXmpp::Private::makeReadyTask<IqDecryptResult>(NotEncrypted {});
+    }
+    bool isEncrypted(const QDomElement &) override { return false; }
+    bool isEncrypted(const QXmppMessage &) override { return false; }
+};
 
 struct Payload {
     const char *name;
@@ -132,6 +185,11 @@ public:
         k[QStringLiteral("sm")] = (qint64)(mix64(seed, 0x5e08) % 100 < 25 ? 2 : 0);
         k[QStringLiteral("ext")] = r.weighted({ 15, 35, 50 });   // 0 none, 1 defaults, 2 every bundled manager
         k[QStringLiteral("autoReconnect")] = 0;
+        // an end-to-end encryption extension (own stream: the other draws of a seed stay what they were); with it 15 % of
+        // the incoming IQs arrive wrapped and reach the client through injectIq()
+        Prng re(derive(seed, "c08e2ee"));
+        const bool e2ee = re.chance(0.4);
+        k[QStringLiteral("e2ee")] = e2ee;
         p.ops.append(mkop(QStringLiteral("connect")));
         p.ops.append(mkop(QStringLiteral("pump")));
         const int n = (int)r.range(4, tier == QLatin1String("thorough") ? 40 : 24);
@@ -140,7 +198,7 @@ public:
             switch (r.weighted({ 70, 6, 12, 8, 4 })) {
             case 0:
                 // sender class, type, payload, id mode
-                p.ops.append(mkop(QStringLiteral("iq"), { (qint64)r.uniform(6), r.weighted({ 38, 38, 11, 11, 1, 1 }), (qint64)r.uniform(kPayloadCount), r.weighted({ 85, 15 }) }, {}, salt));
+                p.ops.append(mkop(QStringLiteral("iq"), { (qint64)r.uniform(6), r.weighted({ 38, 38, 11, 11, 1, 1 }), (qint64)r.uniform(kPayloadCount), r.weighted({ 85, 15 }), (qint64)(e2ee && re.chance(0.15)) }, {}, salt));
                 break;
             case 1:
                 p.ops.append(mkop(QStringLiteral("req"), { (qint64)r.uniform(3) }, {}, salt));   // the client's own request stays in flight
@@ -226,6 +284,11 @@ public:
             };
             const int ext = (int)plan.knob(QStringLiteral("ext"));
             w.createClient(ext == 0 ? QXmppClient::NoExtensions : QXmppClient::BasicExtensions);
+            if (plan.knob(QStringLiteral("e2ee")) == 1) {
+                auto *e = new SimE2ee;
+                w.client->addExtension(e);
+                w.client->setEncryptionExtension(e);
+            }
             if (ext == 2) {
                 auto *c = w.client;
                 c->addNewExtension<QXmppArchiveManager>();
@@ -320,7 +383,15 @@ public:
                         if (!in.type.isEmpty()) {
                             x += " type='" + in.type.toUtf8() + "'";
                         }
-                        x += ">" + QByteArray(pl.xml) + "</iq>";
+                        if (op.arg(4) == 1) {
+                            // end-to-end encrypted: the payload is the whole inner IQ
+                            const QByteArray inner = x + " xmlns='jabber:client'>" + QByteArray(pl.xml) + "</iq>";
+                            x += "><enc xmlns='urn:sim:e2ee'>" + inner.toBase64() + "</enc></iq>";
+                            in.payload += QStringLiteral("+e2ee");
+                            w.fault("iq_end_to_end_encrypted_injected_by_extension");
+                        } else {
+                            x += ">" + QByteArray(pl.xml) + "</iq>";
+                        }
                         injected.append(in);
                         typesHit.insert(in.type);
                         handlersHit.insert(in.payload);
